@@ -13,7 +13,7 @@ import (
 
 // C13 — graceful shutdown is clean from every lifecycle state.
 
-var c13States = []string{"hc-retrying", "rm-waiting", "idle", "consumer-blocked", "save-held", "save-failing", "reb-in-BSS", "reb-after-ASS", "reb-in-delay", "reb-in-BSStart", "reb-after-ARE", "mid-traffic", "end-during-close", "notify-during-close"}
+var c13States = []string{"hc-retrying", "rm-waiting", "idle", "consumer-blocked", "save-held", "save-failing", "reb-in-BSS", "reb-after-ASS", "reb-in-delay", "reb-in-BSStart", "reb-after-ARE", "mid-traffic", "end-during-close", "notify-during-close", "signal-after-close", "signal-only", "close-during-reopen-retry"}
 
 type c13Cfg struct {
 	RM, HC, API, Auto bool
@@ -69,6 +69,21 @@ func c13Spec(rng *rand.Rand, state string, c c13Cfg) *SessSpec {
 			sp.FailSaves = append(sp.FailSaves, i)
 		}
 		sp.Steps = append(sp.Steps, app(), Step{Op: "barrier"}, Step{Op: "ack", Sel: "all"})
+	case "signal-after-close":
+		// Close() is followed by a termination signal (the orchestrator's SIGTERM, a second Ctrl-C) while the shutdown is under way
+		sp.Backend = "mem"
+		sp.Steps = append(sp.Steps, Step{Op: "holdsave"}, app(), Step{Op: "barrier"}, Step{Op: "ack", Sel: "all"}, Step{Op: "commitasync"}, Step{Op: "waitsave"}, Step{Op: "closeasync"}, Step{Op: "sleep", Ms: 30},
+			Step{Op: "sigterm"}, Step{Op: "sleep", Ms: 30}, Step{Op: "releasesave"})
+	case "signal-only":
+		// the shutdown is requested by SIGTERM alone
+		sp.Steps = append(sp.Steps, app(), Step{Op: "barrier"}, Step{Op: "ack", Sel: "all"}, Step{Op: "sigterm"})
+	case "close-during-reopen-retry":
+		// a vBucket ended with a recoverable status and its re-open is being refused (the library retries once a second)
+		// when Close() arrives: the retries stop
+		vb := rng.Intn(sp.NumVB)
+		sp.ReqFail = map[int][2]int{vb: {2, 0x24}}
+		sp.ReqFailFrom = true
+		sp.Steps = append(sp.Steps, Step{Op: "end", VB: vb, St: transientStatus[rng.Intn(4)]}, Step{Op: "waitreopen", VB: vb, N: 2}, Step{Op: "sleep", Ms: 100})
 	case "end-during-close":
 		// the server ends a vBucket stream with a recoverable status (state changed, too slow, ...) while Close() is running
 		// (held inside BeforeStreamStop): the shutdown must not re-open it
@@ -94,6 +109,10 @@ func c13Spec(rng *rand.Rand, state string, c c13Cfg) *SessSpec {
 		sp.Steps = append(sp.Steps, reb, Step{Op: "waiteh", Sel: "ARE"})
 	}
 	sp.Steps = append(sp.Steps, Step{Op: "waitclose", Ms: 20000})
+	if state == "close-during-reopen-retry" {
+		// the library's retry loop runs for up to five seconds: whatever is still alive after Close() shows in that time
+		sp.LingerMs = 5200
+	}
 	return sp
 }
 
@@ -163,7 +182,7 @@ func oracleShutdown(tr *Trace, state string) []Finding {
 		}
 	}
 	// nothing is (re)started once Close() was called: no stream request, no rebalance
-	if state == "end-during-close" || state == "notify-during-close" {
+	if state == "end-during-close" || state == "notify-during-close" || state == "close-during-reopen-retry" {
 		var closeT int64
 		for _, r := range tr.Log {
 			if r.K == "ctl.close.call" && closeT == 0 {
@@ -277,6 +296,10 @@ func init() {
 			return r
 		},
 		OnDeath: func(sc drv.Scenario, out drv.ChildOutcome) drv.Result {
+			if (sc.Kind == "signal-after-close" || sc.Kind == "signal-only") && strings.Contains(out.Stderr, "panic:") {
+				return drv.Result{Verdict: drv.Violated, Clause: "crash", FindingKey: "C13/crash/" + sc.Kind + "/signal", Nontrivial: true, TraceHash: drv.Hash("death", sc.Kind, "signal"),
+					Detail: fmt.Sprintf("a termination signal in state %q crashed the process: %s", sc.Kind, drv.PanicLine(out.Stderr)), Witness: out.Stderr}
+			}
 			if drv.IsLibraryPanic(out.Stderr) {
 				shape := "other"
 				switch {
